@@ -974,3 +974,166 @@ Section FloatElemProofs.
     destruct Hbits as [-> | ->]; reflexivity.
   Qed.
 End FloatElemProofs.
+
+(* ------------------------------------------------------------------ *)
+(* ExitValueFloat, decimal spellings: compact_float.DFloatFromString    *)
+(* ------------------------------------------------------------------ *)
+
+Lemma chars_val_app b a c acc : chars_val b (a ++ c) acc = chars_val b c (chars_val b a acc).
+Proof. revert acc; induction a as [|x a IH]; intro acc; cbn [app chars_val]; [reflexivity | apply IH]. Qed.
+
+Lemma chars_val_ge b s acc : 1 <= b -> acc <= chars_val b s acc.
+Proof.
+  intro Hb. revert acc; induction s as [|c r IH]; intro acc; cbn [chars_val]; [lia|].
+  etransitivity; [|apply IH]. nia.
+Qed.
+
+(* the digit loop of decodeSignificand / decodeFractional *)
+Fixpoint df_run (ds : bytes) (sig : N) : option N :=
+  match ds with
+  | [] => Some sig
+  | c :: r => match df_next sig c with Some nx => df_run r nx | None => None end
+  end.
+
+Lemma dec_digit_val c : is_dec c = true -> digit_val c = Some (c - 48).
+Proof. intro H. unfold digit_val. rewrite H. reflexivity. Qed.
+
+Lemma df_run_ok ds sig :
+  forallb is_dec ds = true -> chars_val 10 ds sig <= i63max ->
+  df_run ds sig = Some (chars_val 10 ds sig).
+Proof.
+  revert sig; induction ds as [|c r IH]; intros sig Hd Hle; cbn [df_run chars_val] in *; [reflexivity|].
+  cbn [forallb] in Hd. apply andb_true_iff in Hd as [Hc Hr].
+  rewrite (dec_digit_val c Hc) in *.
+  pose proof (chars_val_ge 10 r (sig * 10 + (c - 48)) ltac:(lia)) as Hge.
+  unfold df_next, i63max in *.
+  change (2 ^ 64) with 18446744073709551616. change (2 ^ 63 - 1) with 9223372036854775807 in *.
+  rewrite N.mod_small by lia.
+  replace (9223372036854775807 <? sig * 10 + (c - 48)) with false by lia.
+  apply IH; assumption.
+Qed.
+
+Lemma df_run_fail ds sig :
+  forallb is_dec ds = true -> sig <= i63max ->
+  i63max < chars_val 10 ds sig -> chars_val 10 ds sig < 2 ^ 64 ->
+  df_run ds sig = None.
+Proof.
+  revert sig; induction ds as [|c r IH]; intros sig Hd Hs Hgt Hlt; cbn [df_run chars_val] in *; [lia|].
+  cbn [forallb] in Hd. apply andb_true_iff in Hd as [Hc Hr].
+  rewrite (dec_digit_val c Hc) in *.
+  pose proof (chars_val_ge 10 r (sig * 10 + (c - 48)) ltac:(lia)) as Hge.
+  unfold df_next, i63max in *.
+  change (2 ^ 64) with 18446744073709551616 in *. change (2 ^ 63 - 1) with 9223372036854775807 in *.
+  rewrite N.mod_small by lia.
+  destruct (9223372036854775807 <? sig * 10 + (c - 48)) eqn:E; [reflexivity|].
+  apply IH; try assumption. lia.
+Qed.
+
+Lemma df_run_app a b sig :
+  df_run (a ++ b) sig = match df_run a sig with Some s => df_run b s | None => None end.
+Proof.
+  revert sig; induction a as [|c r IH]; intro sig; cbn [app df_run]; [reflexivity|].
+  destruct (df_next sig c); [apply IH | reflexivity].
+Qed.
+
+Lemma dec_not_dot_e c : is_dec c = true -> (c =? c_dot) = false /\ is_e c = false.
+Proof.
+  unfold is_dec, c_dot, is_e. intro H. split; [lia|].
+  destruct (lower_cases c) as [[? E]|[? E]]; rewrite E; lia.
+Qed.
+
+Lemma df_sig_app ds rest sig :
+  forallb is_dec ds = true ->
+  df_sig (ds ++ rest) sig = match df_run ds sig with Some s => df_sig rest s | None => DFail end.
+Proof.
+  revert sig; induction ds as [|c r IH]; intros sig Hd; cbn [app df_run]; [reflexivity|].
+  cbn [forallb] in Hd. apply andb_true_iff in Hd as [Hc Hr].
+  cbn [df_sig]. destruct (dec_not_dot_e c Hc) as [E1 E2]. rewrite E1, E2, Hc.
+  destruct (df_next sig c); [apply IH, Hr | reflexivity].
+Qed.
+
+Lemma df_frac_app ds rest sig fr :
+  forallb is_dec ds = true ->
+  df_frac (ds ++ rest) sig fr
+  = match df_run ds sig with Some s => df_frac rest s (fr + N.of_nat (length ds)) | None => DFail end.
+Proof.
+  revert sig fr; induction ds as [|c r IH]; intros sig fr Hd; cbn [app df_run length].
+  - f_equal. lia.
+  - cbn [forallb] in Hd. apply andb_true_iff in Hd as [Hc Hr].
+    cbn [df_frac]. destruct (dec_not_dot_e c Hc) as [E1 E2]. rewrite E2, Hc.
+    destruct (df_next sig c); [|reflexivity]. rewrite (IH _ _ Hr). destruct (df_run r n); [|reflexivity].
+    f_equal. lia.
+Qed.
+
+Lemma df_exp_digits_ok ds e :
+  forallb is_dec ds = true -> chars_val 10 ds e <= 2147483647 ->
+  df_exp_digits ds e = Some (chars_val 10 ds e).
+Proof.
+  revert e; induction ds as [|c r IH]; intros e Hd Hle; cbn [df_exp_digits chars_val] in *; [reflexivity|].
+  cbn [forallb] in Hd. apply andb_true_iff in Hd as [Hc Hr]. rewrite Hc.
+  rewrite (dec_digit_val c Hc) in *.
+  pose proof (chars_val_ge 10 r (e * 10 + (c - 48)) ltac:(lia)) as Hge.
+  replace (2147483647 <? e * 10 + (c - 48)) with false by lia.
+  apply IH; assumption.
+Qed.
+
+Lemma df_exponent_ok sg ds :
+  nonempty ds = true -> forallb is_dec ds = true -> chars_val 10 ds 0 <= 2147483647 ->
+  df_exponent (esign_chars sg ++ ds) = Some (exp_part_val (Some (false, sg, ds))).
+Proof.
+  intros Hne Hd Hle. unfold df_exponent, exp_part_val.
+  pose proof (df_exp_digits_ok ds 0 Hd Hle) as HE.
+  destruct sg as [[|]|]; cbn [esign_chars app].
+  - change (c_minus =? c_minus) with true. cbv iota. rewrite HE. reflexivity.
+  - change (c_plus =? c_minus) with false. change (c_plus =? c_plus) with true. cbv iota. rewrite HE. reflexivity.
+  - destruct ds as [|d r]; [discriminate|]. cbn [forallb] in Hd. apply andb_true_iff in Hd as [Hd0 _].
+    unfold is_dec in Hd0.
+    replace (d =? c_minus) with false by (unfold c_minus; lia).
+    replace (d =? c_plus) with false by (unfold c_plus; lia).
+    rewrite HE. reflexivity.
+Qed.
+
+Definition exp_digits_small (eo : option (bool * option bool * bytes)) : Prop :=
+  match eo with Some (_, _, ds) => chars_val 10 ds 0 <= 2147483647 | None => True end.
+
+(* the whole significand scan on a clean decimal spelling *)
+Lemma df_sig_clean ic fo eo :
+  forallb is_dec ic = true -> opt_ok (forallb is_dec) fo = true ->
+  opt_ok (fun e => nonempty (snd e) && forallb is_dec (snd e)) eo = true ->
+  exp_digits_small eo ->
+  df_sig (ic ++ frac_part fo ++ exp_part_chars false eo) 0
+  = match df_run (ic ++ match fo with Some f => f | None => [] end) 0 with
+    | Some s => DOk s (N.of_nat (length (match fo with Some f => f | None => [] end))) (exp_part_val eo)
+    | None => DFail
+    end.
+Proof.
+  intros Hic Hfo Heo Hsm.
+  assert (HE : forall sig fr,
+             match exp_part_chars false eo with
+             | [] => DOk sig fr 0
+             | c :: r => if is_e c then match df_exponent r with Some e => DOk sig fr e | None => DFail end
+                         else DFail
+             end = DOk sig fr (exp_part_val eo)).
+  { intros sig fr. destruct eo as [[[up sg] ds]|]; cbn [exp_part_chars]; [|reflexivity].
+    cbn [opt_ok snd] in Heo. apply andb_true_iff in Heo as [Hn Hd]. cbn [exp_digits_small] in Hsm.
+    replace (is_e (exp_char false up)) with true by (destruct up; reflexivity).
+    rewrite (df_exponent_ok sg ds Hn Hd Hsm). reflexivity. }
+  rewrite (df_sig_app ic _ 0 Hic), df_run_app.
+  destruct (df_run ic 0) as [s|]; [|reflexivity].
+  destruct fo as [f|]; cbn [frac_part app].
+  - cbn [df_sig]. change (c_dot =? c_dot) with true. cbv iota. cbn [opt_ok] in Hfo.
+    rewrite (df_frac_app f _ s 0 Hfo). destruct (df_run f s) as [s'|]; [|reflexivity].
+    cbn [N.add].
+    destruct (exp_part_chars false eo) as [|c r] eqn:EE.
+    + cbn [df_frac]. specialize (HE s' (N.of_nat (length f))). rewrite EE in HE. exact HE.
+    + cbn [df_frac]. specialize (HE s' (N.of_nat (length f))). rewrite EE in HE.
+      destruct (is_e c) eqn:Ec; [exact HE | discriminate].
+  - cbn [df_run length]. destruct (exp_part_chars false eo) as [|c r] eqn:EE.
+    + cbn [df_sig]. specialize (HE s 0). rewrite EE in HE. exact HE.
+    + specialize (HE s 0). rewrite EE in HE. destruct (is_e c) eqn:Ec; [|discriminate].
+      cbn [df_sig]. rewrite Ec.
+      assert (Hnd : (c =? c_dot) = false).
+      { destruct eo as [[[up sg] ds]|]; cbn [exp_part_chars] in EE; [|discriminate].
+        injection EE as <- _. destruct up; reflexivity. }
+      rewrite Hnd. exact HE.
+Qed.
